@@ -22,7 +22,7 @@ RULE = ("translator (T): the <P>_COMBINATOR terms and deserialize_<p> wrapper op
         "first/middle/last body character, appended), declared sizes 0 / 1 / off-by-one / swapped / huge / zero-padded / signed / "
         "Unicode digits / empty, empty bodies, other prefixes and names, embedded newlines, non-URL text.  search: the same stream (plus "
         "compass.parse_puzz_link_url and bench/pzv_problem.solve_problem with stubbed solvers) judged on the real code alone against "
-        "the property: any exception other than ValueError (or no return within 5 s) is a violation; a returned problem must have the "
+        "the property: any exception other than ValueError (or no return within 2 s) is a violation; a returned problem must have the "
         "declared dimensions (independent string-split reading of the URL), must serialize again (serialize_problem_as_url with the "
         "declared size, and the module's serialize_<p> on non-empty boards), and decoding that canonical text must return the same "
         "value (type-strict ==).  A case is non-trivial when it is a distinct (decoder, text).")
